@@ -96,10 +96,14 @@ REQUIRED_BINS = [
     "restriction_at_hs", "restriction_in_hs_detect_window",
     "reset_while_restricted", "restriction_toggled_near_reset", "hs_window_j_at_decision",
     "hs_se0_split", "fs_suspend_after_hs_suspend", "disconnect_used", "bus_busy_used", "vbus_loss_at_hs",
+    "lso_in_hs_detect_window_reset", "fso_in_hs_detect_window_reset", "fso_and_lso_together", "se0_across_disconnect_release",
+    "disconnect_request_while_suspended", "disconnect_request_during_handshake", "bus_busy_outside_chirp_preparation",
+    "speed_selected_low", "speed_selected_full", "platform_ignore_phy_vbus",
 ]
 REQUIRED_EVENTS = ["output_changes", "bus_reset_periods_judged", "hs_entries_judged", "suspend_entries_judged",
                    "chirp_mode_starts_judged", "chirp_mode_ends_judged", "hs_restriction_runs_judged",
-                   "device_chirps_measured", "train_states_scanned", "timestamp_calibrations"]
+                   "device_chirps_measured", "train_states_scanned", "timestamp_calibrations",
+                   "hs_termination_runs_judged", "speed_selections_judged"]
 ASSUMPTIONS = [
     "time is counted in 60 MHz clock periods; line_state is an ideal, synchronous input",
     "bus_busy is asserted for at most 300 cycles at a time",
@@ -241,10 +245,9 @@ class Drv:
 
     IN = ("line", "vbus", "fso", "lso", "disc", "busy")
 
-    def __init__(self, ctx, dut, rng, res):
+    def __init__(self, ctx, dut, rng, res, sig):
         self.ctx, self.dut, self.rng, self.res = ctx, dut, rng, res
-        self.sig = {"line": dut.line_state, "vbus": dut.vbus_connected, "fso": dut.full_speed_only,
-                    "lso": dut.low_speed_only, "disc": dut.disconnect, "busy": dut.bus_busy}
+        self.sig = sig
         self.T = 0
         self.inp = {k: Trace(0) for k in self.IN}
         self.val = {k: 0 for k in self.IN}
@@ -332,9 +335,9 @@ def near(rng, thr, spread=3):
 
 async def connect(d, mode):
     rng = d.rng
-    d.set("fso", mode == "fs")
-    d.set("lso", mode == "ls")
-    d.set("line", FS_K if mode == "ls" else FS_J)
+    d.set("fso", mode in ("fs", "both"))
+    d.set("lso", mode in ("ls", "both"))
+    d.set("line", FS_K if mode in ("ls", "both") else FS_J)
     d.set("vbus", 0)
     await d.calibrate(1)                 # harness self-check (3 cycles), after the power-up inputs are in place
     await d.wait(rng.randint(1, 60))
@@ -519,6 +522,9 @@ async def run_handshake(d, kind, busy=False, restr_games=True, fresh=False):
     # what the device sees while it chirps: its own K, SE0, or something odd
     d.set("line", rng.choice([FS_K, FS_K, SE0, FS_J]))
     toggled = None
+    if rng.random() < 0.2:
+        await d.wait(rng.randint(5, 3000))
+        await disc_pulse_ignored(d, "disc_in_handshake")
     if restr_games and rng.random() < 0.35:
         # restriction toggled while the handshake is in progress (cannot stop it; HS must be left at once if it is still on)
         await d.wait(rng.randint(10, 60000))
@@ -633,6 +639,8 @@ async def suspended_games(d, leave):
     """SE0 pulses around 2.5 us while suspended, then leave by 'resume' or 'reset'."""
     rng = d.rng
     await d.wait(rng.randint(1, 300))
+    if rng.random() < 0.35:
+        await disc_pulse_ignored(d, "disc_in_suspend")
     await se0_probes(d, rng.randint(2, 5), T_2P5US, allow_reset=False)
     if not d.out["susp"]:
         return
@@ -645,6 +653,42 @@ async def suspended_games(d, leave):
         await d.until(p_not_susp, 50)
 
 
+async def disconnect_with_se0(d):
+    """short soft disconnect; the line goes SE0 while the device is still disconnected and stays SE0 across the release for
+    less than 5 us in total after the release: no reset may be reported (timers must restart when the device re-initialises)."""
+    rng = d.rng
+    d.mark("disconnect")
+    d.set("line", rng.choice([FS_J, FS_K]) if d.hs_op() else d.idle())
+    await d.wait(2)
+    t0 = d.T
+    d.set("disc", 1)
+    hold = rng.randint(1, 60)
+    s = rng.randint(1, 150)
+    L = T_5US - s + rng.randint(5, 40)
+    for t, fn in sorted([(hold, lambda: d.set("disc", 0)), (s, lambda: (d.set("line", SE0), d.mark("se0_across_disconnect_release")))],
+                        key=lambda x: x[0]):
+        n = t0 + t - d.T
+        if n > 0:
+            await d.wait(n)
+        fn()
+    n = t0 + s + L - d.T
+    if n > 0:
+        await d.wait(n)
+    d.set("line", FS_J)
+    await d.wait(rng.randint(20, 200))
+    d.set("line", d.idle())
+    await d.wait(10)
+
+
+async def disc_pulse_ignored(d, mark):
+    """a soft-disconnect request in a state where the sequencer does not act on it (suspended, handshake)."""
+    rng = d.rng
+    d.mark(mark)
+    d.set("disc", 1)
+    await d.wait(rng.randint(1, 300))
+    d.set("disc", 0)
+
+
 async def hs_games(d):
     """things that happen at high speed and do not end it: squelch with traffic-like activity."""
     rng = d.rng
@@ -653,6 +697,9 @@ async def hs_games(d):
     for _ in range(rng.randint(0, 4)):
         await d.line(rng.choice([FS_J, FS_K]), rng.randint(1, 40))
         await d.line(SE0, rng.randint(1, 2000))
+    if rng.random() < 0.3:
+        d.mark("busy_elsewhere")
+        d.set("busy", 1); await d.wait(rng.randint(1, 200)); d.set("busy", 0)
 
 
 async def hs_exit(d, how, prefer_ls=False):
@@ -663,7 +710,7 @@ async def hs_exit(d, how, prefer_ls=False):
         which = "lso" if prefer_ls else rng.choice(["fso", "fso", "lso"])
         d.mark("restr_at_hs")
         d.set(which, 1)
-        await d.wait(rng.randint(3, 200) if prefer_ls else rng.choice([1, 1, 2, 3, rng.randint(4, 200)]))
+        await d.wait(rng.randint(6, 200) if prefer_ls else rng.choice([1, 1, 2, 3, rng.randint(4, 200)]))
         if rng.random() < 0.7:
             d.set(which, 0)
         await d.wait(rng.randint(1, 100))
@@ -679,6 +726,8 @@ async def hs_exit(d, how, prefer_ls=False):
         d.set("line", FS_J)
         await d.wait(rng.randint(1, 100))
         d.set("vbus", 1)
+    elif rng.random() < 0.5:
+        await disconnect_with_se0(d)
     else:
         d.mark("disconnect")
         d.set("line", rng.choice([FS_J, FS_K]))
@@ -717,9 +766,13 @@ async def hs_window(d, variant, restrict):
     W = T_200US
     if restrict:
         d.mark("restr_in_window")
-        which = rng.choice(["fso", "fso", "lso"])
+        which = rng.choice(["fso", "lso"])
+        d.mark("restr_in_window_" + which)
         await d.wait(rng.randint(1, W - 200))
         d.set(which, 1)
+        if rng.random() < 0.15:
+            d.set("fso", 1); d.set("lso", 1)          # both restrictions at once
+            d.mark("both_restrictions")
     # all variants steer by time since t0 (about 1-2 cycles after the switch); the decision is near t0 + W
     async def goto(off):
         n = t0 + off - d.T
@@ -745,7 +798,7 @@ async def hs_window(d, variant, restrict):
     await goto(W - 20)
     got = await d.until(lambda o: o["susp"] or o["op"] == OP_CHIRP, 400)
     if not got:
-        return "lost"
+        return "reset_restricted" if d.restricted() else "lost"
     return "suspend" if d.out["susp"] else "reset"
 
 
@@ -763,9 +816,11 @@ async def after_suspend_attempt(d, got):
 
 async def session_playground(d):
     rng = d.rng
-    mode = rng.choice(["fs", "ls"])
+    mode = rng.choice(["fs", "fs", "ls", "ls", "both"])
     d.res.desc["mode"] = mode
     await connect(d, mode)
+    if mode == "both":
+        d.mark("both_restrictions")
     await se0_probes(d, rng.randint(4, 10), T_5US, allow_reset=True)
     if rng.random() < 0.6:
         await restriction_games_near_reset(d)
@@ -776,8 +831,10 @@ async def session_playground(d):
         d.mark("disconnect")
         d.set("disc", 1); await d.wait(rng.randint(1, 400)); d.set("disc", 0); await d.wait(T_2P5US + 30)
         d.set("line", d.idle()); await d.wait(10)
+    for _ in range(rng.choice([0, 1, 1, 2])):
+        await disconnect_with_se0(d)
     variant = rng.choice(["plain", "near", "split", "split", "wrong_prefix", "wrong_prefix", "wrong_prefix", "wrong_only", "wrong_only"])
-    if mode == "ls" and rng.random() < 0.25:
+    if mode in ("ls", "both") and rng.random() < 0.25:
         variant = "wrong_only"
     d.res.desc["long"] = [variant]
     await after_suspend_attempt(d, await fs_suspend(d, variant))
@@ -903,6 +960,10 @@ async def hs_idle_episode(d, variants, restrict_p, fresh=False):
     restrict = rng.random() < restrict_p
     w = await hs_window(d, variant, restrict)
     d.res.desc.setdefault("walk", []).append("hs_3ms_%s%s_%s" % (variant, "_restricted" if restrict else "", w))
+    if w == "reset_restricted":
+        await d.wait(rng.randint(1, 30))
+        d.set("fso", 0); d.set("lso", 0)
+        d.set("line", FS_J); await d.wait(10); d.set("line", d.idle()); await d.wait(10)
     if w == "reset":
         await run_handshake(d, "valid", restr_games=False)
         if d.restricted():
@@ -943,10 +1004,13 @@ async def plan_hs_reset_chain(d):
     fresh = rng.random() < 0.4
     if await fs_to_handshake(d, "valid", restr_p=0, fresh=fresh) != "hs":
         return
-    for i in range(rng.choice([1, 1, 1, 2])):
+    for i in range(rng.choice([1, 2, 2, 2])):
         if not d.hs_op():
-            return
-        w = await hs_idle_episode(d, WINDOW_RESET if rng.random() < 0.8 else WINDOW_SUSPEND, 0.45, fresh=(fresh and i == 0))
+            if i == 0 or d.T > 420000 or d.in_chirp_mode() or d.out["susp"]:
+                return
+            if await fs_to_handshake(d, "valid", busy_p=0.2, restr_p=0) != "hs":      # after a restricted (FS) reset: back to HS
+                return
+        w = await hs_idle_episode(d, WINDOW_RESET if rng.random() < 0.8 else WINDOW_SUSPEND, 0.75, fresh=(fresh and i == 0))
         if w == "suspend":
             if d.restricted():
                 d.set("fso", 0); d.set("lso", 0)
@@ -997,9 +1061,9 @@ async def plan_suspend_reset(d):
         await se0_probes(d, rng.randint(1, 4), T_5US, allow_reset=d.restricted())
 
 
-PLANS = [("resume_then_fs_suspend", plan_resume_then_fs_suspend, 22), ("hs_reset_chain", plan_hs_reset_chain, 18),
-         ("timeout", plan_timeout, 27), ("handshake_exits", plan_handshake_exits, 14),
-         ("suspend_reset", plan_suspend_reset, 10), ("walk", None, 9)]
+PLANS = [("resume_then_fs_suspend", plan_resume_then_fs_suspend, 20), ("hs_reset_chain", plan_hs_reset_chain, 32),
+         ("timeout", plan_timeout, 23), ("handshake_exits", plan_handshake_exits, 11),
+         ("suspend_reset", plan_suspend_reset, 8), ("walk", None, 6)]
 
 
 async def session_hs(d):
@@ -1027,7 +1091,7 @@ def judge(res, d, out_tr, end):
     """out_tr: dict of output traces; d.inp: input traces; end = number of simulated periods."""
     line, vbus, fso, lso, disc = d.inp["line"], d.inp["vbus"], d.inp["fso"], d.inp["lso"], d.inp["disc"]
     rst, susp, speed, op = out_tr["rst"], out_tr["susp"], out_tr["speed"], out_tr["op"]
-    txv, txd = out_tr["txv"], out_tr["txd"]
+    txv, txd, term = out_tr["txv"], out_tr["txd"], out_tr["term"]
     restricted = combine(lambda a, b: bool(a or b), fso, lso)
     hsop = combine(lambda s, o: s == SPD_HS and o == OP_NORMAL, speed, op)
     chirpmode = combine(lambda o: o == OP_CHIRP, op)
@@ -1162,10 +1226,11 @@ def judge(res, d, out_tr, end):
         chirp_of_end[y] = (x, y, devs)
         ok_end = False
         for t in range(y, min(y + 3, end)):
-            if hsop.at(t) or (op.at(t) == OP_NORMAL and speed.at(t) != SPD_HS):
+            if hsop.at(t) or (op.at(t) == OP_NORMAL and speed.at(t) != SPD_HS and term.at(t) == 1):
                 ok_end = True
         if y + 3 <= end and not ok_end:
-            res.violation("chirp_mode_left_to_invalid_state", "after chirp mode ended at %d: speed=%d op=%d" % (y, speed.at(y + 2), op.at(y + 2)))
+            res.violation("chirp_mode_left_to_invalid_state", "after chirp mode ended at %d: speed=%d op=%d term=%d (neither HS operation "
+                          "nor FS/LS normal mode with FS/LS termination)" % (y, speed.at(y + 2), op.at(y + 2), term.at(y + 2)))
         if c1 is not None and not hsop.any_in(y, y + 2, truth):
             res.bin("handshake_timeout_fallback" if y - c1 >= T_2P5MS - 64 else "handshake_ended_otherwise")
 
@@ -1229,6 +1294,53 @@ def judge(res, d, out_tr, end):
             res.violation("hs_not_left_within_2_cycles_of_restriction", "HS operation with full/low-speed restriction from period %d for %d periods"
                           % (a, bb - a))
         res.bin("restriction_at_hs")
+    # ---------------------------------------------------------------- 6. HS termination belongs to HS operation only
+    # termination_select = 0 is the HS termination (UTMI TermSelect).  Outside HS operation it may appear only while the
+    # device is electrically disconnected (non-driving); in chirp mode or in FS/LS normal mode it would be "high speed" without
+    # a completed handshake / after the fall-back.
+    t0_chirp = combine(lambda tm, o: tm == 0 and o == OP_CHIRP, term, op)
+    t0_fs = combine(lambda tm, o, sp: tm == 0 and o == OP_NORMAL and sp != SPD_HS, term, op, speed)
+    for a, b in term.true_runs(end, lambda v: v == 0):
+        res.event("hs_termination_runs_judged")
+    for tr, mech, what in ((t0_chirp, "hs_termination_in_chirp_mode", "in chirp mode (handshake not complete)"),
+                           (t0_fs, "hs_termination_at_fs_ls", "in normal mode at full/low speed")):
+        for a, b in tr.true_runs(end):
+            bb = end if b is None else b
+            if bb - a >= 3:
+                res.violation(mech, "termination_select = 0 (HS termination) %s from period %d for %d periods" % (what, a, bb - a))
+                break
+
+    # ---------------------------------------------------------------- 7. LOW vs FULL follows low_speed_only where the speed is (re)decided
+    # decision points: power-up, fall-back out of chirp mode, HS left by restriction / VBUS loss, release of a soft disconnect.
+    # Judged only when low_speed_only was constant from 2 periods before to 3 after the point (whatever cycle the device samples).
+    points = []
+    if end > 12:
+        points.append((2, 8, "power-up"))
+    for x, y in chirp_runs:
+        if y is not None and y + 4 < end and not hsop.any_in(y, y + 3, truth):
+            points.append((y, y + 3, "fall-back from the handshake"))
+    for h, e in hs_runs:
+        if e is not None and e + 4 < end and hs_left_by_command(e) and not disc.any_in(e - SLACK, e, truth):
+            points.append((e, e + 3, "HS left by restriction / VBUS loss"))
+    for a, b in op.true_runs(end, lambda v: v == OP_NONDRIVING):
+        if b is not None and b + 4 < end:
+            points.append((b, b + 3, "release of the soft disconnect"))
+    for t in sorted(hs_resets):
+        if t + 6 < end and not chirpmode.any_in(t, t + 5, truth):
+            points.append((t + 1, t + 4, "reset from high speed while restricted"))
+    for t, tj, what in points:
+        if op.at(tj) != OP_NORMAL or speed.at(tj) == SPD_HS or not lso.all_in(t - 2, tj, lambda v, r=lso.at(tj): v == r):
+            continue
+        res.event("speed_selections_judged")
+        want_low = bool(lso.at(tj))
+        if want_low and speed.at(tj) != SPD_LS:
+            res.violation("low_speed_restriction_not_applied", "%s at period %d: low_speed_only = 1 throughout, current_speed = %d at %d"
+                          % (what, t, speed.at(tj), tj))
+        elif not want_low and speed.at(tj) == SPD_LS:
+            res.violation("low_speed_without_restriction", "%s at period %d: low_speed_only = 0 throughout, current_speed = LOW at %d" % (what, t, tj))
+        else:
+            res.bin("speed_selected_low" if want_low else "speed_selected_full")
+
     return {"hs_runs": hs_runs, "chirp_runs": chirp_runs, "susp_runs": susp_runs, "hs_resets": hs_resets,
             "restricted": restricted, "hsop": hsop, "idle": idle, "chirpmode": chirpmode}
 
@@ -1279,6 +1391,23 @@ def workload_bins(res, d, out_tr, info, end):
             res.bin("restriction_during_handshake")
     for t in m.get("restr_in_window", []):
         res.bin("restriction_in_hs_detect_window")
+    for which, tr in (("lso", d.inp["lso"]), ("fso", d.inp["fso"])):
+        for t in m.get("restr_in_window_" + which, []):
+            if any(t <= r <= t + T_200US + 100 and tr.at(r) for r in info["hs_resets"]):
+                res.bin("%s_in_hs_detect_window_reset" % which)
+    for t in m.get("both_restrictions", []):
+        res.bin("fso_and_lso_together")
+    for t in m.get("se0_across_disconnect_release", []):
+        if out_tr["op"].any_in(t - 160, t + 5, lambda v: v == OP_NONDRIVING):
+            res.bin("se0_across_disconnect_release")
+    for t in m.get("disc_in_suspend", []):
+        if susp.at(t):
+            res.bin("disconnect_request_while_suspended")
+    for t in m.get("disc_in_handshake", []):
+        if chirp.at(t):
+            res.bin("disconnect_request_during_handshake")
+    for t in m.get("busy_elsewhere", []):
+        res.bin("bus_busy_outside_chirp_preparation")
     for t in m.get("restr_toggle_near_reset", []):
         res.bin("restriction_toggled_near_reset")
     for t in m.get("late_j", []):
@@ -1321,26 +1450,43 @@ def run_case(rng, tier, res):
 
         def elaborate(self, platform):
             m = Module()
-            m.submodules.dut = self.dut
+            m.submodules.dut = self.inner if self.inner is not None else self.dut
             m.d.usb += self.probe_q.eq(self.probe_d)
             return m
 
-    top = Harness()
-    dut = top.dut
-    sim = Simulator(top)
-    sim.add_clock(1 / 60e6, domain="usb")
+    class FakePlatform:
+        """what the sequencer looks at on a platform: the device name and the ignore_phy_vbus override"""
+        device = "LFE5U-25F"
+        ignore_phy_vbus = True
 
-    names = ["rst", "susp", "speed", "op", "term", "txv", "txd"]
-    outs = [dut.bus_reset, dut.suspended, dut.current_speed, dut.operating_mode, dut.termination_select,
-            dut.tx.valid, dut.tx.data]
+    class OnPlatform(Elaboratable):
+        def __init__(self, inner):
+            self.inner = inner
+
+        def elaborate(self, platform):
+            return self.inner.elaborate(FakePlatform())
+
     total = sum(w for _n, _f, w in SESSIONS)
     pick = rng.randrange(total)
     for sname, sfn, w in SESSIONS:
         if pick < w:
             break
         pick -= w
-    res.desc = {"session": sname}
-    res.sig(sname)
+    ignore_vbus = sname == "playground" and rng.random() < 0.25
+    top = Harness()
+    dut = top.dut
+    top.inner = OnPlatform(dut) if ignore_vbus else None
+    # input signals are taken before elaboration (with ignore_phy_vbus the sequencer replaces its vbus_connected attribute)
+    sig = {"line": dut.line_state, "vbus": dut.vbus_connected, "fso": dut.full_speed_only,
+           "lso": dut.low_speed_only, "disc": dut.disconnect, "busy": dut.bus_busy}
+    sim = Simulator(top)
+    sim.add_clock(1 / 60e6, domain="usb")
+
+    names = ["rst", "susp", "speed", "op", "term", "txv", "txd"]
+    outs = [dut.bus_reset, dut.suspended, dut.current_speed, dut.operating_mode, dut.termination_select,
+            dut.tx.valid, dut.tx.data]
+    res.desc = {"session": sname, "ignore_phy_vbus": ignore_vbus}
+    res.sig(sname, ignore_vbus)
     log = []
     probe_log = []
     holder = {}
@@ -1355,7 +1501,7 @@ def run_case(rng, tier, res):
         res.event("timestamp_calibrations")
 
     async def driver(ctx):
-        d = Drv(ctx, dut, rng, res)
+        d = Drv(ctx, dut, rng, res, sig)
         holder["d"] = d
         d.out = dict(zip(names, (ctx.get(s) for s in outs)))
         log.append((0, tuple(d.out[n] for n in names)))
@@ -1415,6 +1561,14 @@ def run_case(rng, tier, res):
         for t, vals in log[1:]:
             tr.add(t, vals[i])
         out_tr[n] = tr
+    if ignore_vbus:
+        # the platform says VBUS sensing is to be ignored: a missing VBUS must then not hold the device in reset
+        v = d.inp["vbus"]
+        blind = [(a, b) for a, b, val in v.runs(0, end) if not val and b - a >= 3]
+        if blind and not any(out_tr["rst"].any_in(a + 1, b - 1, bool) and d.inp["line"].all_in(a - 310, b, lambda x: x != SE0) for a, b in blind):
+            res.bin("platform_ignore_phy_vbus")
+        # for the judge VBUS counts as present throughout (that is what the platform asserts)
+        d.inp["vbus"] = Trace(1)
     info = judge(res, d, out_tr, end)
     workload_bins(res, d, out_tr, info, end)
     res.desc.update({"cycles": end, "first_inputs": d.steps[:40],
